@@ -4,18 +4,42 @@ use actix::prelude::*;
 use rnacos::common::sequence_utils::SimpleSequence;
 use rnacos::sequence::core::SequenceDbManager;
 use rnacos::sequence::model::{SeqGroup, SequenceRaftReq, SequenceRaftResult};
+use rnacos::config::core::ConfigActor;
+use rnacos::config::model::ConfigRaftCmd;
+use rnacos::verif_hooks::VerifConfigSeq;
+use std::collections::HashMap;
 use std::sync::Arc;
+
+fn mk_add(e: &(String, String, u64, Option<u64>)) -> ConfigRaftCmd {
+    ConfigRaftCmd::ConfigAdd {
+        key: e.0.clone(),
+        value: Arc::new(e.1.clone()),
+        config_type: None,
+        desc: None,
+        history_id: e.2,
+        history_table_id: e.3,
+        op_time: 1,
+        op_user: None,
+    }
+}
 
 pub fn run() {
     let sys = actix_rt::System::new();
     let mut db: Addr<SequenceDbManager> = sys.block_on(async { SequenceDbManager::new().start() });
     let mut g = SeqGroup::new(100);
     let mut c: Vec<SimpleSequence> = vec![];
+    // real ConfigActors as cluster nodes + the committed log of ConfigAdd commands + current content per key
+    let mut r: Vec<Addr<ConfigActor>> = vec![];
+    let mut rlog: Vec<(String, String, u64, Option<u64>)> = vec![];
+    let mut rcontent: HashMap<String, u64> = HashMap::new();
     for_each_line(|l| {
         if l.starts_with('#') {
             db = sys.block_on(async { SequenceDbManager::new().start() });
             g = SeqGroup::new(100);
             c = vec![];
+            r = vec![];
+            rlog = vec![];
+            rcontent = HashMap::new();
             return l.to_string();
         }
         let ws: Vec<&str> = l.split_whitespace().collect();
@@ -89,6 +113,80 @@ pub fn run() {
                 }
                 _ => "bad-op".to_string(),
             },
+            ["r", "new", n] => match n.parse::<usize>() {
+                Ok(n) => {
+                    r = sys.block_on(async { (0..n).map(|_| ConfigActor::new().start()).collect() });
+                    rlog = vec![];
+                    rcontent = HashMap::new();
+                    "ok".to_string()
+                }
+                _ => "bad-op".to_string(),
+            },
+            // the leader draws (id, mark) exactly as ConfigAsyncCmd::Add does; the committed ConfigAdd is applied by
+            // every node's real set_config; `same` re-publishes the key's current content, `new` changes it
+            ["r", "issue", i, key, how] => match i.parse::<usize>() {
+                Ok(i) if i < r.len() => {
+                    let leader = r[i].clone();
+                    let (id, mark) = match sys.block_on(async move { leader.send(VerifConfigSeq { draw: true }).await }) {
+                        Ok(v) => v,
+                        Err(_) => return "err".to_string(),
+                    };
+                    let ver = rcontent.entry(key.to_string()).or_insert(0);
+                    if *how != "same" || *ver == 0 {
+                        *ver += 1;
+                    }
+                    let entry = (format!("{}\u{2}g\u{2}t", key), format!("v{}", ver), id, mark);
+                    rlog.push(entry.clone());
+                    let nodes = r.clone();
+                    let ok = sys.block_on(async move {
+                        let mut ok = true;
+                        for a in nodes {
+                            ok &= matches!(a.send(mk_add(&entry)).await, Ok(Ok(_)));
+                        }
+                        ok
+                    });
+                    if !ok {
+                        return "err".to_string();
+                    }
+                    format!("id {} mark {}", id, mark.map(|m| m.to_string()).unwrap_or("-".to_string()))
+                }
+                _ => "bad-op".to_string(),
+            },
+            // restart: a fresh actor that replays the whole committed log (no snapshot), or loads the snapshot's
+            // sequence record (InnerSetLastId with the old node's get_end_id) and nothing else
+            ["r", "restart", i, how] => match i.parse::<usize>() {
+                Ok(i) if i < r.len() => {
+                    let old = r[i].clone();
+                    let log = rlog.clone();
+                    let snap = *how == "snap";
+                    let fresh = sys.block_on(async move {
+                        let fresh = ConfigActor::new().start();
+                        if snap {
+                            let (e, _) = old.send(VerifConfigSeq { draw: false }).await.unwrap_or((0, None));
+                            let _ = fresh.send(rnacos::config::core::ConfigCmd::InnerSetLastId(e)).await;
+                        } else {
+                            for e in log {
+                                let _ = fresh.send(mk_add(&e)).await;
+                            }
+                        }
+                        fresh
+                    });
+                    r[i] = fresh;
+                    "ok".to_string()
+                }
+                _ => "bad-op".to_string(),
+            },
+            ["r", "ends"] => {
+                let nodes = r.clone();
+                let ends: Vec<String> = sys.block_on(async move {
+                    let mut v = vec![];
+                    for a in nodes {
+                        v.push(a.send(VerifConfigSeq { draw: false }).await.map(|x| x.0).unwrap_or(0).to_string());
+                    }
+                    v
+                });
+                format!("ends {}", ends.join(","))
+            }
             ["c", "ends"] => format!(
                 "ends {}",
                 c.iter().map(|s| s.get_end_id().to_string()).collect::<Vec<_>>().join(",")
